@@ -184,6 +184,39 @@ func (f *File) toProto() (*descriptorpb.FileDescriptorProto, error) {
 		auto = []string{PreludeProto}
 	}
 	fd.Dependency = append(append([]string{}, f.Deps...), auto...)
+	if len(f.Comments) > 0 {
+		sci := &descriptorpb.SourceCodeInfo{}
+		add := func(c string, path ...int32) {
+			n := int32(len(sci.Location))
+			sci.Location = append(sci.Location, &descriptorpb.SourceCodeInfo_Location{Path: path, Span: []int32{n + 1, 0, 1}, LeadingComments: proto.String(c)})
+		}
+		for i, m := range fd.MessageType {
+			if c, ok := f.Comments["msg:"+m.GetName()]; ok {
+				add(c, 4, int32(i))
+			}
+			for j, fl := range m.Field {
+				if c, ok := f.Comments["field:"+m.GetName()+"."+fl.GetName()]; ok {
+					add(c, 4, int32(i), 2, int32(j))
+				}
+			}
+		}
+		for i, e := range fd.EnumType {
+			if c, ok := f.Comments["enum:"+e.GetName()]; ok {
+				add(c, 5, int32(i))
+			}
+		}
+		for i, sv := range fd.Service {
+			if c, ok := f.Comments["svc:"+sv.GetName()]; ok {
+				add(c, 6, int32(i))
+			}
+			for j, me := range sv.Method {
+				if c, ok := f.Comments["rpc:"+sv.GetName()+"."+me.GetName()]; ok {
+					add(c, 6, int32(i), 2, int32(j))
+				}
+			}
+		}
+		fd.SourceCodeInfo = sci
+	}
 	return fd, nil
 }
 
